@@ -19,4 +19,7 @@ Inductive action : Set :=
 Definition rule : Set := (cond * action)%type.
 
 (* the components of the signature compared by _node_matches_argspec *)
-Inductive component : Set := CompArgs | CompVararg | CompKwarg | CompKwonly.
+Inductive component : Set :=
+| CompArgs        (* node.args.args                         vs argspec.args *)
+| CompArgsPos     (* node.args.posonlyargs + node.args.args vs argspec.args *)
+| CompVararg | CompKwarg | CompKwonly.
